@@ -5,6 +5,7 @@ import itertools
 import numpy as np
 from harness import core
 from harness.props import c17_ext
+from harness.props import c17_ext2
 
 ID = 'C17'
 LEAN_MODULES = ['PydlVerif.Props.C17']
@@ -16,7 +17,14 @@ THEOREMS = [P + t for t in (
     'aesthetics_only_bad', 'median_reflect', 'skymask_dilate',
     # extension round
     'finishMask_spec', 'reject_mask_nd', 'qdone_iff_unchanged_full', 'groupbadpix_without_maxrej',
-    'ends_constant_x', 'single_good_x', 'independent_of_masked_values_x', 'maskinterp_axis_line_x')]
+    'ends_constant_x', 'single_good_x', 'independent_of_masked_values_x', 'maskinterp_axis_line_x',
+    # second extension round
+    'median_reflect_2d', 'median_none_2d', 'median_2d_clauses', 'median_none', 'median_1d_boundary',
+    'median_reflect_refusals', 'median_reflect_single',
+    'aesthetics_full_only_bad', 'aesthetics_clean', 'aesthetics_unknown_raises', 'aesthetics_is_maskinterp', 'aesthetics_nothing',
+    'aesthetics_replaced_values', 'aesthetics_mean_values', 'aesthetics_mean_exact',
+    'damp_formula', 'damp_values', 'damp_ends_good', 'damp_halves_first_good', 'damp_no_good_raises',
+    'maskinterp_all_masked', 'maskinterp_refusals', 'reject_refusals')]
 RULE = ('djs_reject: every combination of sigma-scalar/sigma-array/invvar/none x lower/upper/maxdev set or not x inmask/outmask '
         'given or not x sticky x grow 0..3 on 1-D data of 0..14 pixels (exact dyadic residuals placed on a grid of k*sigma away '
         'from the limits, plus random floats), 2-D data with grow=0, shape mismatches; djs_maskinterp: 1-3-D (and 0/4-D refusals), '
@@ -27,7 +35,10 @@ RULE = ('djs_reject: every combination of sigma-scalar/sigma-array/invvar/none x
         'djs_reject with maxrej=None on 1-4-D data x grow 0..3 x arbitrary (also inconsistent) groupdim/groupsize/groupbadpix x '
         'inmask/outmask/sticky, every outlier pattern on small 2-D/3-D arrays (<= 6 / 9 pixels) x grow 0..3; maxrej-observed = calls WITH '
         'maxrej, counted only (ignored / applied / raises), never judged; med2 = 2-D reflecting median incl. axes of length 1, axes shorter '
-        'than the padding, even widths; damp = aesthetics(damp) with leading/trailing/no bad pixels, no good pixel, a 600-pixel spectrum')
+        'than the padding, even widths; damp = aesthetics(damp) with leading/trailing/no bad pixels, no good pixel, a 600-pixel spectrum. '
+        'Second extension (c17_ext2.py): medb / med2b = djs_median 1-D (n 1..30) / 2-D (axes 1..11) x widths 1..11 odd and even x boundary '
+        'none/reflect/nearest/wrap/unknown; aesf = aesthetics with all five methods and an unknown one on clean, partly masked (leading / '
+        'trailing / inner runs) and fully masked spectra')
 TRUSTED = ['hand-written models lean/PydlVerif/Model/Reject.lean, Interp.lean tied to the code by the bit-exact I/O correspondence of this run',
            'numpy argsort (sorting permutation), scipy.signal.medfilt (median of an odd window), numpy mean/std, libm sqrt: parameters of the model',
            'oracles: scipy.ndimage.median_filter(mode="reflect"), scipy.ndimage.binary_dilation, direct Python restatement of the rejection and interpolation rules']
@@ -776,6 +787,7 @@ def run(ctx):
     _reject(ctx)
     _skymask(ctx)
     c17_ext.run_all(ctx)
+    c17_ext2.run_all(ctx)
 
 
 def replay(ctx, case):
@@ -789,6 +801,8 @@ def replay(ctx, case):
         _maskinterp(ctx, [case])
     elif s in ('rejf', 'med2', 'damp'):
         c17_ext.replay(ctx, case)
+    elif s in ('medb', 'med2b', 'aesf'):
+        c17_ext2.replay(ctx, case)
     else:
         run(ctx)
 
@@ -800,11 +814,22 @@ LEVEL_TEXT = ('Machine-checked Lean 4 theorems over executable models of djs_rej
               'invvar=0; reflecting median = median over the symmetric extension; skymask = dilation by ngrow of the flagged pixels - '
               'for all lengths, masks and options. Extension: the end of djs_reject from any working array and the rejection rule for data of any shape '
               '(neighbours in the flattened array), without maxrej the options groupdim/groupsize/groupbadpix are inert, x-mode versions of ends/single-good/independence and the x-mode axis '
-              'lines. The models are tied to the repository on every run by bit-exact I/O correspondence '
-              'over all option combinations and checked against independent oracles (scipy.ndimage, direct restatement).')
+              'lines. Second extension: the 2-D reflecting median (pixel (i,j) = window median of the image reflected about its four edges, every shape with '
+              'both axes >= ceil(w/2), every odd width), boundary="none" in 1-D and 2-D (inner samples = window median, border samples unchanged), the '
+              'other boundary clauses (1-D: forced to reflect; 2-D nearest/wrap/unknown: ValueError), every refusal of djs_median (even kernel, short axis), the single-value broadcast; '
+              'aesthetics with every method: clean spectrum returned as it is, unknown method raises, nothing = flux, mean = the supplied mean at every pixel without '
+              'positive invvar, traditional/noconst = djs_maskinterp with the explicit replaced values (straight line between the good neighbours, constant ends), '
+              'damp = that result times the two erf factors of the code at EVERY pixel (good pixels unchanged exactly when first and last pixel are good; '
+              'first good pixel halved when bad pixels lead), ValueError without a good pixel; djs_maskinterp with no unmasked sample returns the input, its refusals, the '
+              'refusals / model=None return of djs_reject. The models are tied to the repository on every run by bit-exact I/O correspondence '
+              'over all option combinations and checked against independent oracles (scipy.ndimage, numpy.median, direct restatement).')
 LEVEL_NOTE = ('Trusted: Lean kernel, axioms propext/Classical.choice/Quot.sound at most, the hand-written models (validated only by the '
-              'correspondence sample). Parameters, not verified: argsort, the window median kernel, numpy mean/std, sqrt. Theorems are over '
+              'correspondence sample). Parameters, not verified: argsort, the window median kernel (1-D and 2-D: any function of the window), numpy mean/std '
+              '(aesthetics("mean") is proved for the mean handed over; aesthetics_mean_exact instantiates it with the exact sum/count), sqrt, scipy erf (any function; '
+              'damp_halves_first_good assumes erf 0 = 0). Theorems are over '
               'exact ordered fields, not IEEE floats. Not covered: djs_reject called WITH maxrej (outside the statement; the repository ignores it for '
-              '1-D data and raises for N-D data with groupdim - recorded as observation only). Modelled and compared but not proved: the 2-D reflecting '
-              'median (model + scipy oracle), aesthetics("damp") (model; it changes good pixels by design). Domain: lower, upper >= 0, maxdev > 0, sigma >= 0, invvar >= 0 in aesthetics, '
+              '1-D data and raises for N-D data with groupdim - recorded as observation only). Modelled and compared but not proved: the 2-D reflecting median when an axis has '
+              'length 1 < ceil(w/2) (numpy broadcasts it) or when width > array.size (kernel min(width, size)); aesthetics("damp") uses float32 pixel numbers in the code - exact for '
+              'spectra shorter than 2^24 pixels, the model uses the integers. "aesthetics changes flux only where invvar = 0" is proved for traditional, noconst, mean (invvar >= 0), nothing; '
+              'for damp it is FALSE by design (IDL too) and the exact factors are proved instead. Domain: lower, upper >= 0, maxdev > 0, sigma >= 0, invvar >= 0 in aesthetics_only_bad, '
               'distinct x values, finite data.')
